@@ -437,6 +437,9 @@ def _literal_items(M, fn, it: ast.AST, top=None):
         pairs = [(ast.Constant(value=k.arg), k.value) for k in node.keywords]
     elif isinstance(node, (ast.Tuple, ast.List)) and mode in ("values", "iter") and not isinstance(it, ast.Call):
         return [("v", e) for e in node.elts] if len(node.elts) <= 12 else None
+    elif isinstance(node, ast.Call) and isinstance(node.func, ast.Name) and node.func.id in ("tuple", "list") and len(node.args) == 1 and \
+            isinstance(node.args[0], (ast.Tuple, ast.List)) and mode in ("values", "iter"):
+        return [("v", e) for e in node.args[0].elts] if len(node.args[0].elts) <= 12 else None
     if pairs is None or len(pairs) > 12:
         return None
     if mode == "items":
@@ -517,6 +520,9 @@ def _unroll_block(M, fn, stmts: List[ast.stmt], changed: List[str], top=None) ->
                     else:
                         if isinstance(st.target, ast.Name):
                             mp = {st.target.id: it[1]}
+                        elif isinstance(st.target, ast.Tuple) and isinstance(it[1], (ast.Tuple, ast.List)) and \
+                                len(st.target.elts) == len(it[1].elts) and all(isinstance(x, ast.Name) for x in st.target.elts):
+                            mp = {t_.id: v_ for t_, v_ in zip(st.target.elts, it[1].elts)}      # for a, b in ((A1, B1), (A2, B2))
                         else:
                             ok = False
                     if not ok:
@@ -860,7 +866,9 @@ def _forward_subst(fn_node: ast.FunctionDef, keep: set, alias_only: bool = False
 
 _OPS = {"ge": ast.GtE, "gt": ast.Gt, "le": ast.LtE, "lt": ast.Lt, "eq": ast.Eq, "ne": ast.NotEq}
 _BINOPS = {"add": ast.Add, "sub": ast.Sub, "mul": ast.Mult, "truediv": ast.Div, "floordiv": ast.FloorDiv, "mod": ast.Mod,
-           "and_": ast.BitAnd, "or_": ast.BitOr, "xor": ast.BitXor}
+           "and_": ast.BitAnd, "or_": ast.BitOr, "xor": ast.BitXor,
+           # the in-place variants return the result as well: x = operator.imul(x, y) is x = x * y for the analysis
+           "iadd": ast.Add, "isub": ast.Sub, "imul": ast.Mult, "itruediv": ast.Div, "ifloordiv": ast.FloorDiv, "imod": ast.Mod}
 
 
 class _OperatorCalls(ast.NodeTransformer):
